@@ -650,6 +650,28 @@ def cap_i(chk, fx):
 
 
 # ------------------------------------------------------------------------------------------------ CAP-S
+def _capacity_text(fx, t):
+    """Second template argument of cvector<T, CAP> as written; a capacity spelled through a variable template
+    (`parse_stack_capacity<N, E>`) is replaced by that template's initialiser."""
+    depth, cut = 0, None
+    inner = t[t.find("<") + 1:t.rfind(">")]
+    for i, ch in enumerate(inner):
+        if ch in "<(":
+            depth += 1
+        elif ch in ">)":
+            depth -= 1
+        elif ch == "," and depth == 0:
+            cut = i
+    cap = inner[cut + 1:].strip() if cut is not None else inner.strip()
+    m = re.fullmatch(r"(\w+)<([^<>]*)>", cap)
+    if m:
+        for u, v in fx.vars():
+            if v["n"] == m.group(1) and v.get("init") is not None and v["q"].startswith("ctpg::"):
+                txt = _RecCanon(u).c(v["init"])
+                return re.sub(r"[()]", "", txt).strip()
+    return cap
+
+
 def cap_s(chk, fx, only=None):
     """only: restrict the push sites that are judged (by name); the capacity expressions are always compared."""
     chk.rule("CAP-S", "push sites of the fixed-capacity parse stacks", 4 if only is None else len(only))
@@ -662,7 +684,7 @@ def cap_s(chk, fx, only=None):
             for m in r["members"]:
                 if m["k"] == "alias" and m["n"] == "type" and "cvector" in u.T(m["t"]):
                     t = u.T(m["t"])
-                    caps.add(t[t.rfind(",") + 1:t.rfind(">")].strip())
+                    caps.add(_capacity_text(fx, t))
     if not caps:
         chk.incomplete("fixed-capacity stack selectors not found")
     if len(caps) != 1:
